@@ -779,6 +779,9 @@ def rule_nlcount(c: Ctx) -> RuleResult:
                         # beyond the end: nothing to test at this position
                         if isinstance(l_, ast.Name) and l_.id == pv and ((isinstance(op, ast.Lt) and not pos_) or (isinstance(op, ast.GtE) and pos_)):
                             return (True, fresh)
+                        # ... the same test written the other way round (`maximum > pos` failed, `maximum <= pos` held)
+                        if isinstance(r_, ast.Name) and r_.id == pv and ((isinstance(op, ast.Gt) and not pos_) or (isinstance(op, ast.LtE) and pos_)):
+                            return (True, fresh)
                     return st
                 if n.kind == "stmt" and label != "exc" and isinstance(a, (ast.Assign, ast.AugAssign, ast.AnnAssign)):
                     io = incr_of(a) if isinstance(a, (ast.Assign, ast.AugAssign)) else None
